@@ -503,7 +503,7 @@ func main() {
 	pktOnly := flag.Int("pktonly", -1, "pkt mode: only this case id")
 	flag.Parse()
 	if *pktMode {
-		pktAll(*out, *pktOnly)
+		pktAll(*out, *pktOnly, *seed)
 		return
 	}
 	if *parseMode {
